@@ -77,3 +77,160 @@ Proof.
     intros pre n post E. unfold events_ok in S2.
     destruct (events_go_sound _ _ S2 pre n post E) as [top [stk [A [_ B]]]]. eauto.
 Qed.
+
+(* ================================================================================================
+   must-assign analysis of the process flow skeleton: on EVERY control path every read of a
+   process variable is preceded by a write of that variable in the same activation            *)
+
+Fixpoint after (a : list string) (tr : list act) : list string :=
+  match tr with
+  | [] => a
+  | ARead _ :: r => after a r
+  | AWrite x :: r => after (x :: a) r
+  end.
+
+Lemma trace_ok_app : forall p q a, trace_ok a (p ++ q) = trace_ok a p && trace_ok (after a p) q.
+Proof.
+  induction p as [|[x|x] p IH]; intros q a; simpl; auto.
+  rewrite IH, andb_assoc. reflexivity.
+Qed.
+
+Lemma after_app : forall p q a, after a (p ++ q) = after (after a p) q.
+Proof. induction p as [|[x|x] p IH]; intros; simpl; auto. Qed.
+
+Lemma after_ext : forall tr a, incl a (after a tr).
+Proof.
+  induction tr as [|[x|x] tr IH]; intros a; simpl; auto using incl_refl.
+  eapply incl_tran; [|apply IH]. apply incl_tl, incl_refl.
+Qed.
+
+Lemma after_mono : forall tr a b, incl a b -> incl (after a tr) (after b tr).
+Proof.
+  induction tr as [|[x|x] tr IH]; intros a b H; simpl; auto.
+  apply IH. intros y [Hy|Hy]; [left; exact Hy | right; apply H; exact Hy].
+Qed.
+
+Lemma memb_mono : forall x a b, incl a b -> memb x a = true -> memb x b = true.
+Proof. intros x a b H Hm. apply memb_In. apply H. apply memb_In. exact Hm. Qed.
+
+Lemma reads_ok : forall g b, (forall x, In x g -> In x b) -> trace_ok b (map ARead g) = true.
+Proof.
+  induction g as [|x g IH]; intros b H; simpl; auto.
+  rewrite IH by (intros; apply H; right; assumption).
+  rewrite andb_true_r. apply memb_In. apply H. left. reflexivity.
+Qed.
+
+Lemma reads_after : forall g b, after b (map ARead g) = b.
+Proof. induction g; simpl; auto. Qed.
+
+Lemma meet_opt_spec : forall j a1 r, meet_opt j a1 = Some r ->
+  incl r a1 /\ (forall r0, j = Some r0 -> incl r r0).
+Proof.
+  intros [b|] a1 r H; simpl in H; inversion H; subst.
+  - split.
+    + intros x Hx. apply filter_In in Hx as [_ Hx]. apply memb_In. exact Hx.
+    + intros r0 E. inversion E; subst. intros x Hx. apply filter_In in Hx as [Hx _]. exact Hx.
+  - split; [apply incl_refl | discriminate].
+Qed.
+
+Lemma must_b_none : forall a br, must_b a br = Some None -> br = BNil.
+Proof.
+  intros a [|g body r]; simpl; auto. intros H.
+  destruct (forallb (fun x => memb x a) g); [|discriminate].
+  destruct (must_t a body); [|discriminate].
+  destruct (must_b a r) as [j|]; [|discriminate].
+  destruct j; simpl in H; discriminate.
+Qed.
+
+Scheme stmt_mut := Induction for stmt Sort Prop
+  with branches_mut := Induction for branches Sort Prop
+  with stmts_mut := Induction for stmts Sort Prop.
+Combined Scheme flow_mutind from stmt_mut, branches_mut, stmts_mut.
+
+Definition P_s (s : stmt) : Prop := forall a a' b,
+  must_s a s = Some a' -> incl a b ->
+  forall tr, In tr (paths_s s) -> trace_ok b tr = true /\ incl a' (after b tr).
+Definition P_b (br : branches) : Prop := forall a j b gpre total,
+  must_b a br = Some j -> incl a b -> (forall x, In x gpre -> In x a) ->
+  forall tr, In tr (paths_b gpre br total) ->
+    trace_ok b tr = true /\ incl a (after b tr)
+    /\ (total = true -> forall r, j = Some r -> incl r (after b tr)).
+Definition P_t (t : stmts) : Prop := forall a a' b,
+  must_t a t = Some a' -> incl a b ->
+  forall tr, In tr (paths_t t) -> trace_ok b tr = true /\ incl a' (after b tr).
+
+Lemma must_sound_all : (forall s, P_s s) /\ (forall br, P_b br) /\ (forall t, P_t t).
+Proof.
+  apply flow_mutind; unfold P_s, P_b, P_t.
+  - (* SRead *) intros x a a' b H Hab tr [<-|[]]. simpl in *.
+    destruct (memb x a) eqn:E; [|discriminate]. inversion H; subst.
+    rewrite (memb_mono x a' b Hab E). split; [reflexivity | exact Hab].
+  - (* SWrite *) intros x a a' b H Hab tr [<-|[]]. simpl in *. inversion H; subst.
+    split; [reflexivity|]. intros y [Hy|Hy]; [left; exact Hy | right; apply Hab; exact Hy].
+  - (* SBranch *) intros br IH total a a' b H Hab tr Htr. simpl in H, Htr.
+    destruct (must_b a br) as [j|] eqn:E; [|discriminate].
+    destruct (IH a j b [] total E Hab (fun x (F : In x []) => match F with end) tr Htr) as (T & I & J).
+    split; [exact T|].
+    destruct total.
+    + destruct j as [r|]; inversion H; subst; [apply J; reflexivity | exact I].
+    + inversion H; subst. exact I.
+  - (* BNil *) intros a j b gpre total H Hab Hg tr Htr. simpl in Htr.
+    destruct total; [contradiction|]. destruct Htr as [<-|[]].
+    rewrite reads_ok by (intros x Hx; apply Hab, Hg, Hx). rewrite reads_after.
+    split; [reflexivity|]. split; [exact Hab | discriminate].
+  - (* BCons *) intros g body IHbody r IHr a j b gpre total H Hab Hg tr Htr. simpl in H, Htr.
+    destruct (forallb (fun x => memb x a) g) eqn:G; [|discriminate].
+    destruct (must_t a body) as [a1|] eqn:B; [|discriminate].
+    destruct (must_b a r) as [j'|] eqn:R; [|discriminate].
+    inversion H; subst j. clear H.
+    assert (Hg' : forall x, In x (gpre ++ g) -> In x a).
+    { intros x Hx. apply in_app_or in Hx as [Hx|Hx]; [apply Hg; exact Hx|].
+      rewrite forallb_forall in G. apply memb_In. apply G. exact Hx. }
+    apply in_app_or in Htr as [Htr|Htr].
+    + apply in_map_iff in Htr as [p [<- Hp]].
+      destruct (IHbody a a1 b B Hab p Hp) as (T & I).
+      rewrite trace_ok_app, after_app, reads_after, T.
+      rewrite reads_ok by (intros x Hx; apply Hab, Hg', Hx).
+      split; [reflexivity|]. split.
+      * eapply incl_tran; [exact Hab | apply after_ext].
+      * intros _ r0 E. destruct (meet_opt_spec j' a1 r0 E) as [M _].
+        eapply incl_tran; [exact M | exact I].
+    + destruct (IHr a j' b (gpre ++ g) total R Hab Hg' tr Htr) as (T & I & J).
+      split; [exact T|]. split; [exact I|].
+      intros Ht r0 E. destruct (meet_opt_spec j' a1 r0 E) as [_ M].
+      destruct j' as [r1|].
+      * eapply incl_tran; [apply (M r1); reflexivity | apply J; auto].
+      * apply must_b_none in R. subst r. simpl in Htr. rewrite Ht in Htr. contradiction.
+  - (* TNil *) intros a a' b H Hab tr [<-|[]]. simpl in *. inversion H; subst. split; auto.
+  - (* TCons *) intros s IHs r IHr a a' b H Hab tr Htr. simpl in H, Htr.
+    destruct (must_s a s) as [a1|] eqn:S; [|discriminate].
+    apply in_flat_map in Htr as [p1 [Hp1 Htr]]. apply in_map_iff in Htr as [p2 [<- Hp2]].
+    destruct (IHs a a1 b S Hab p1 Hp1) as (T1 & I1).
+    destruct (IHr a1 a' (after b p1) H I1 p2 Hp2) as (T2 & I2).
+    rewrite trace_ok_app, after_app, T1, T2. split; [reflexivity | exact I2].
+Qed.
+
+(* `flow_sound` *)
+Lemma flow_sound_proof : forall t a', must_t [] t = Some a' ->
+  forall tr, In tr (paths_t t) -> trace_ok [] tr = true.
+Proof.
+  intros t a' H tr Htr. destruct must_sound_all as (_ & _ & HT).
+  exact (proj1 (HT t [] a' [] H (incl_refl _) tr Htr)).
+Qed.
+
+Lemma check_design_flows_sound : forall files s,
+  check_design_tokens files = Ok s ->
+  forall vars t, In (vars, t) (sm_flows s) -> forall tr, In tr (paths_t t) -> trace_ok [] tr = true.
+Proof.
+  unfold check_design_tokens. intros files s H.
+  destruct (check_files init_sstate (order_files files)) as [st|c x] eqn:CF; simpl in H; [|discriminate].
+  destruct (sites_ok files); simpl in H; [|discriminate].
+  destruct (events_ok (rev (events st))); simpl in H; [|discriminate].
+  destruct (list_eqb _ _); simpl in H; [|discriminate].
+  destruct (flows_ok (fl_done (fl st))) eqn:F; simpl in H; [|discriminate].
+  destruct (check_insts st) as [[a b]|c x]; simpl in H; [|discriminate].
+  inversion H; subst s; clear H. simpl. intros vars t Hin tr Htr.
+  unfold flows_ok in F. rewrite forallb_forall in F. specialize (F _ Hin). simpl in F.
+  destruct (must_t [] t) as [a'|] eqn:M; [|discriminate].
+  eapply flow_sound_proof; eauto.
+Qed.
